@@ -121,6 +121,10 @@ def units(tier, seed):
     us = [{"part": "selftest"}]
     for name in sorted(typed_shapes()):
         us.append({"part": "typed", "shape": name})
+    # filtered graphs: two otherwise unconnected sub-graphs whose dependency sets mention a component that is not a key
+    for size in (1, 2):
+        for shared in (True, False):
+            us.append({"part": "pool-outside", "size": size, "shared": shared})
     for f in fams:
         us.append({"part": "order+hash", "family": f, "t": "plain"})
     for f in fams[:8]:
@@ -255,6 +259,15 @@ def make_broker(g, case, observers=True):
     return g.make_broker(extra=extra, observers=observers)
 
 
+def eval_graph(g, case):
+    """The graph handed to the drivers: every node with its declared dependencies; `drop_keys` removes KEYS (a filtered
+    graph whose dependency sets still mention components that do not take part - those must not be evaluated by anyone)."""
+    graph = g.explicit_graph()
+    for i in case.get("drop_keys") or []:
+        graph.pop(g.nodes[i], None)
+    return graph
+
+
 def reference(case):
     """Single pass, default order, in the calling (main) thread."""
     from insights.core import dr
@@ -262,7 +275,7 @@ def reference(case):
     g = G.Graph({"nodes": case["nodes"]}, name_tag="g")
     try:
         b = make_broker(g, case)
-        dr.run(g.explicit_graph(), b)
+        dr.run(eval_graph(g, case), b)
         return canon_broker(g, [b]), invocations(g)
     finally:
         g.cleanup()
@@ -437,7 +450,7 @@ def run_pool_once(case, prefix):
         s = S.Scheduler(prefix, target_codes(), pool_size=case["size"], max_points=20000, opcode_codes=opcode_codes())
         g.hook = lambda ev: s.point(ev[:2])
         b = make_broker(g, case) if case["shared"] else None
-        graph = g.explicit_graph()
+        graph = eval_graph(g, case)
         seeds_extra = None
         if not case["shared"] and case.get("ctx"):
             b = make_broker(g, case)            # the context must be present: a broker carrying only seeds
@@ -751,6 +764,26 @@ def run_unit(unit, tier):
                 c = dict(case)
                 c["schedule"] = v[3]
                 res.violation(v[0], c, v[1], v[2], {"ctx": None, "t": "typed"})
+        return res
+    if part == "pool-outside":
+        for xo, dep in itertools.product(("value", "skip", "error"), ("req", "opt", "group")):
+            mk = {"req": lambda: {"t": "plain", "decl": [0], "out": "value"},
+                  "opt": lambda: {"t": "plain", "decl": [], "opt": [0], "out": "value"},
+                  "group": lambda: {"t": "plain", "decl": [[0]], "out": "value"}}[dep]
+            nodes = [{"t": "plain", "decl": [], "out": xo}, mk(), mk()]
+            case = {"kind": "pool", "family": ["outside", dep], "nodes": nodes, "size": unit["size"], "shared": unit["shared"],
+                    "drop_keys": [0]}
+            try:
+                vio, nexec, nout, ex = check_pool(case, 1, res, max_executions=3000)
+            except Exception:
+                import traceback
+                vio, nexec, nout = [("harness:raises", "no exception", traceback.format_exc()[-900:], None)], 0, 0
+            res.case(nontrivial=nexec >= 2, outcome="pool-outside:%d" % nout)
+            res.stat("pool_schedules_executed", nexec)
+            for v in vio:
+                c = dict(case)
+                c["schedule"] = v[3]
+                res.violation(v[0], c, v[1], v[2], {"ctx": None, "t": "plain", "signal_in_worker_thread": False})
         return res
     if part == "pool":
         nodes, comps = compose(unit["family"], unit["t"], unit.get("ctx"))
